@@ -1609,3 +1609,171 @@ def rule_moment_pipeline(ctx, prog, rule="R19"):
                what="raw moments are not Σ y^k / n")
     except Unrecognised as ex:
         unrec(ctx, rule, "moments/raw-moments", mo.where(), ex)
+
+
+# ======================================================================================= C01 interpolation layer
+
+def fn_term(prog, body, names, depth=0):
+    """T-term of the value a loop-free, branch-free crate function returns, private helper calls inlined"""
+    tb = prog.tracked(body)
+
+    def leaf(e):
+        if isinstance(e, tuple) and e[0] == "param" and e[1] in names:
+            return names[e[1]]
+        if isinstance(e, tuple) and e[0] == "call" and e[2].startswith("quantile::interpolate::") and depth < 4:
+            cb = prog.bodies.get(e[2])
+            if cb is not None and not any(cb.term(bb)["k"] == "switch" for bb in cb.live_blocks()):
+                sub_names = {}
+                for i, a in enumerate(e[3]):
+                    sub_names[i + 1] = K.term(a)
+                return fn_term(prog, cb, sub_names, depth + 1)
+        return None
+    K = Kernel(prog, tb, leaf)
+    return K.term(tb.return_expr())
+
+
+def rule_c01_interpolation(ctx, prog, rule="R19"):
+    rec = Recorder(ctx, rule)
+    q, n = ("sym", "q"), ("sym", "len")
+    IDX = ("mul", q, ("sub", n, ("num", 1)))
+    qn = {1: q, 2: n}
+    # index arithmetic
+    for name, spec in (("float_quantile_index", IDX), ("float_quantile_index_fraction", ("fn", "fract", IDX)),
+                       ("lower_index", ("fn", "floor", IDX)), ("higher_index", ("fn", "ceil", IDX))):
+        b = prog.find("quantile::interpolate::%s" % name)
+        try:
+            t = fn_term(prog, b, qn)
+            ok = canon_op(t) == canon_op(spec)
+            ctx.ob(rule, "%s/formula" % name, ok, b.where(), "= %s" % show(spec) if ok else "computes `%s`, documented `%s`" % (show(t), show(spec)),
+                   what="quantile index arithmetic differs from (N−1)q floor/ceil/fract")
+        except Unrecognised as ex:
+            unrec(ctx, rule, "%s/formula" % name, b.where(), ex)
+    # strategy table
+    lo, hi = ("sym", "lower"), ("sym", "higher")
+    FR = ("fn", "fract", IDX)
+
+    def impl(strategy, item):
+        return prog.find("<quantile::interpolate::%s as quantile::interpolate::Interpolate<T>>::%s" % (strategy, item))
+
+    def const_bool(b):
+        r = ds(b.return_expr())
+        if isinstance(r, tuple) and r[0] == "const" and isinstance(r[2], bool):
+            return r[2]
+        return None
+    table = {"Higher": (False, True), "Lower": (True, False), "Midpoint": (True, True), "Linear": (True, True)}
+    for s_, (nl, nh) in table.items():
+        gl, gh = const_bool(impl(s_, "needs_lower")), const_bool(impl(s_, "needs_higher"))
+        ctx.ob(rule, "%s/needs" % s_, (gl, gh) == (nl, nh), impl(s_, "needs_lower").where(),
+               "needs_lower = %s, needs_higher = %s" % (nl, nh) if (gl, gh) == (nl, nh) else "needs_lower/higher are %s/%s, expected %s/%s" % (gl, gh, nl, nh),
+               what="strategy requests the wrong neighbours")
+    # Nearest: lower iff fraction < 0.5 ; higher = !lower
+    nlb = impl("Nearest", "needs_lower")
+    try:
+        r = ds(prog.tracked(nlb).return_expr())
+        ok = isinstance(r, tuple) and r[0] == "call" and r[1] == "lt" and ds(r[3][1]) == ("const", "f64", 0.5)
+        if ok:
+            Kn = Kernel(prog, prog.tracked(nlb), lambda e: qn.get(e[1]) if (isinstance(e, tuple) and e[0] == "param") else
+                        (fn_term(prog, prog.bodies[e[2]], {i + 1: Kn.term(a) for i, a in enumerate(e[3])}) if (isinstance(e, tuple) and e[0] == "call" and e[2] in prog.bodies and e[2].startswith("quantile::interpolate::float")) else None))
+            ok = canon_op(Kn.term(r[3][0])) == canon_op(FR)
+        ctx.ob(rule, "Nearest/needs_lower", ok, nlb.where(), "lower iff fract((N−1)q) < 0.5" if ok else "Nearest::needs_lower is `%s`" % fmt(r)[:100],
+               what="nearest neighbour chosen by the wrong threshold")
+        nhb = impl("Nearest", "needs_higher")
+        r2 = ds(nhb.return_expr())
+        ok2 = isinstance(r2, tuple) and r2[0] == "unop" and r2[1] == "Not" and ds(r2[2])[0] == "call" and ds(r2[2])[1] == "needs_lower" \
+            and "Nearest" in (nhb.site_term(ds(r2[2])[4])["callee"].get("path_args") or "")
+        ctx.ob(rule, "Nearest/needs_higher", ok2, nhb.where(), "= !needs_lower(q, len)" if ok2 else "`%s`" % fmt(r2)[:100], what="nearest: lower/higher not complementary")
+        ib = impl("Nearest", "interpolate")
+        tb = prog.tracked(ib)
+        sw = [bb for bb in tb.live_blocks() if tb.term(bb)["k"] == "switch" and ds(tb.switch_discr_expr(bb))[0] == "call"]
+        ok3 = False
+        if len(sw) == 1:
+            de = ds(tb.switch_discr_expr(sw[0]))
+            from .rules_guard import Routine
+            rr = Routine.__new__(Routine)
+            rr.prog, rr.body = prog, tb
+            t = tb.term(sw[0])
+            f = [tgt for v, tgt in t["arms"] if v == 0][0]
+            vt = [ds(tb.def_expr(0, d)) for d in rr.first_ret_defs(t["otherwise"], sw[0]) if d not in (None, "loop")]
+            vf = [ds(tb.def_expr(0, d)) for d in rr.first_ret_defs(f, sw[0]) if d not in (None, "loop")]
+            ok3 = de[1] == "needs_lower" and de[3][0][:2] == ("param", 3) and de[3][1][:2] == ("param", 4) and \
+                len(vt) == 1 and vt[0][0] == "call" and vt[0][1] == "unwrap" and vt[0][3][0][:2] == ("param", 1) and \
+                len(vf) == 1 and vf[0][0] == "call" and vf[0][1] == "unwrap" and vf[0][3][0][:2] == ("param", 2)
+        ctx.ob(rule, "Nearest/interpolate", ok3, ib.where(), "needs_lower(q, len) ? lower : higher" if ok3 else "Nearest::interpolate has an unexpected shape",
+               what="nearest returns the wrong neighbour")
+    except Unrecognised as ex:
+        unrec(ctx, rule, "Nearest/table", nlb.where(), ex)
+    names = {1: lo, 2: hi, 3: q, 4: n}
+    for s_, spec in (("Higher", hi), ("Lower", lo), ("Midpoint", ("div", ("add", lo, hi), ("num", 2))),
+                     ("Linear", ("add", lo, ("mul", FR, ("sub", hi, lo))))):
+        b = impl(s_, "interpolate")
+        try:
+            t = fn_term(prog, b, names)
+            rec.equal("%s/interpolate" % s_, b.where(), _realify(t), _realify(spec), "strategy formula differs from its definition", "%s::interpolate" % s_)
+        except Unrecognised as ex:
+            unrec(ctx, rule, "%s/interpolate" % s_, b.where(), ex)
+    rec.flush()
+    # the bulk closure applies the strategy to the looked-up neighbours of the j-th q
+    inner = prog.find("QuantileExt<A, S, D>>::quantiles_axis_mut::quantiles_axis_mut")
+    lane = [c for c in prog.closures_of(inner) if any(callee_name(t) == "get_many_from_sorted_mut_unchecked" for _, t in c.calls())]
+    ok = False
+    detail = "lane closure not found"
+    if len(lane) == 1:
+        c = lane[0]
+        calls = [(bb, t) for bb, t in c.calls() if callee_name(t) == "interpolate"]
+        if len(calls) == 1:
+            bb, t = calls[0]
+            a = [ds(x) for x in c.call_arg_exprs(bb)]
+
+            def looked_up(e, which):
+                # phi of Some(clone(index(index_map, &which(q, axis_len)))) / None
+                found = False
+                for x in walk(e):
+                    pass
+                return found
+            qarg, larg = a[2], a[3]
+            q_is_elem = any(isinstance(x, tuple) and x[0] == "call" and x[1] == "next" for x in walk(qarg))
+            pb, le_ = up(prog, c, larg)
+            le_ = ds(le_)
+            len_ok = isinstance(le_, tuple) and le_[0] == "call" and le_[1] == "len_of" and ds(le_[3][0])[:2] == ("param", 1) and ds(le_[3][1])[:2] == ("param", 2)
+            # the value is stored into the result element paired with that q
+            stores = [(sbb, si, d) for (sbb, si, d) in c.stores()]
+            st_ok = False
+            for sbb, si, d in stores:
+                base = ds(c.local_expr(d["l"], sbb, si))
+                if any(isinstance(x, tuple) and x[0] == "call" and x[1] == "next" for x in walk(base)):
+                    st_ok = True
+            # lookups use lower_index/higher_index of the same (q, axis_len)
+            lk = {}
+            for cbb, ct in c.calls():
+                if callee_name(ct) in ("lower_index", "higher_index"):
+                    aa = [ds(x) for x in c.call_arg_exprs(cbb)]
+                    lk[callee_name(ct)] = (aa[0] == qarg, ds(up(prog, c, aa[1])[1]) == le_)
+            ok = q_is_elem and len_ok and st_ok and lk.get("lower_index") == (True, True) and lk.get("higher_index") == (True, True)
+            detail = "*result_j = I::interpolate(index_map[lower_index(q_j, axis_len)], index_map[higher_index(q_j, axis_len)], q_j, axis_len)" if ok else \
+                "q is the zipped element=%s axis_len=len_of(data, axis)=%s stored into the paired result=%s lookups=%s" % (q_is_elem, len_ok, st_ok, lk)
+    ctx.ob("R13", "quantiles_axis_mut/applies-strategy-to-neighbours", ok, inner.where(), detail, what="bulk quantile does not apply the strategy to the looked-up neighbours")
+    # result shape: raw_dim(data) with [axis.index()] := qs.len()
+    tb = prog.tracked(inner)
+    ok = False
+    detail = "no store through index_mut(results_shape, axis.index())"
+    for (sbb, si, d) in tb.stores():
+        base = ds(tb.local_expr(d["l"], sbb, si))
+        if isinstance(base, tuple) and base[0] == "call" and base[1] == "index_mut":
+            recv, ix = ds(base[3][0]), ds(base[3][1])
+            s = tb.blocks[sbb]["stmts"][si]
+            val = ds(tb.rvalue_expr(s["rv"], sbb, si))
+            recv_ok = isinstance(recv, tuple) and recv[0] == "call" and recv[1] == "raw_dim" and ds(recv[3][0])[:2] == ("param", 1)
+            ix_ok = isinstance(ix, tuple) and ix[0] == "call" and ix[1] == "index" and ds(ix[3][0])[:2] == ("param", 2)
+            val_ok = isinstance(val, tuple) and val[0] == "call" and val[1] == "len" and ds(val[3][0])[:2] == ("param", 3)
+            ok = recv_ok and ix_ok and val_ok
+            detail = "results_shape = data.raw_dim() with [axis.index()] = qs.len()" if ok else "shape store: raw_dim(data)=%s axis.index()=%s qs.len()=%s" % (recv_ok, ix_ok, val_ok)
+    ctx.ob("R13", "quantiles_axis_mut/result-shape", ok, inner.where(), detail, what="bulk result does not have the input's shape with the axis resized to the number of quantiles")
+
+
+def _realify(t):
+    """value symbols of arbitrary sign"""
+    if not isinstance(t, tuple):
+        return t
+    if t[0] == "sym":
+        return ("real", t[1])
+    return tuple(_realify(x) if isinstance(x, tuple) else x for x in t)
